@@ -907,7 +907,8 @@ def gen_torch_main(tree):
     out.append("Definition torch_manifest_key (line : string) : string :=\n  %s." % key)
     out.append("")
     # --- the seed
-    seeds = [s for s in body if isinstance(s, ast.If) and ast.unparse(s.test) in ("options.seed is None", "options.seed is not None")]
+    seeds = [s for s in body if isinstance(s, ast.If) and "options.seed" in ast.unparse(s.test)
+             and any(isinstance(x, ast.Assign) and ast.unparse(x.targets[0]) == "seed" for x in ast.walk(s))]
     if len(seeds) != 1:
         raise Unsupported("seed choice statement")
     class Fresh(ast.NodeTransformer):
